@@ -43,7 +43,7 @@ package banderwagon
 //@ modifies *p
 
 //@ func Element.SetBytesUncompressed
-//@ props C06
+//@ props C06 C19
 //@ prelude field curve bytesint
 //@ let xv = fp_of_int(BEb(buf[0:32]))
 //@ let yl = lroot(y2(xv))
@@ -64,17 +64,17 @@ package banderwagon
 // ---- encoding (C07)
 
 //@ func Element.Bytes
-//@ props C07 C10 C14
+//@ props C07 C10 C14 C19
 //@ prelude field curve bytesint
 //@ ensures bytesOfFp(result, encx(p.inner.X, p.inner.Y, p.inner.Z))
 
 //@ func Element.Equal
-//@ props C07 C02
+//@ props C07 C02 C19
 //@ prelude field
 //@ ensures result == (!(p.inner.X == fp_zero && p.inner.Y == fp_zero) && !(other.inner.X == fp_zero && other.inner.Y == fp_zero) && p.inner.X * other.inner.Y == p.inner.Y * other.inner.X)
 
 //@ func Element.Normalize
-//@ props C07
+//@ props C07 C19
 //@ prelude field
 //@ ensures result != nil <==> old(p.inner.Z) == fp_zero
 //@ ensures result == nil ==> p.inner.X == old(p.inner.X) * fp_inv(old(p.inner.Z)) && p.inner.Y == old(p.inner.Y) * fp_inv(old(p.inner.Z)) && p.inner.Z == fp_one
@@ -84,12 +84,12 @@ package banderwagon
 // ---- map to scalar field (C11)
 
 //@ func Element.mapToBaseField
-//@ props C11
+//@ props C11 C19
 //@ prelude field
 //@ ensures result == p.inner.X * fp_inv(p.inner.Y)
 
 //@ func Element.MapToScalarField
-//@ props C11
+//@ props C11 C19
 //@ prelude field bytesint frint
 //@ ensures *res == fr_of_int(fp_to_int(p.inner.X * fp_inv(p.inner.Y)) % R_MOD)
 //@ modifies *res
@@ -98,7 +98,7 @@ package banderwagon
 // (bmap: *result[k] is the MapToScalarField value of elements[k], the same spec term as in the single-element
 // contract) are proved for pairwise distinct result pointers; elements may alias each other and the inputs freely.
 //@ func BatchMapToScalarField
-//@ props C11
+//@ props C11 C19
 //@ prelude field bytesint frint batchspec
 //@ let HP = heapFp()
 //@ let EL = row(elements)
@@ -130,12 +130,12 @@ package banderwagon
 // ---- batch serialisation (C19)
 
 //@ func Element.BytesUncompressedTrusted
-//@ props C07
+//@ props C07 C19
 //@ prelude field curve bytesint
 //@ ensures xbytes(result, p.inner.X * fp_inv(p.inner.Z)) && ybytes(result, p.inner.Y * fp_inv(p.inner.Z))
 
 //@ func ElementsToBytes
-//@ props C07
+//@ props C07 C19
 //@ prelude field curve bytesint batchspec
 //@ let HP = heapFp()
 //@ let EL = row(elements)
@@ -155,7 +155,7 @@ package banderwagon
 //@ at store 1: assert@chunk fpbytesAt(row(serialised_points), 32*i, 32, encxb(HP[EL[Eo + 2*i]][EL[Eo + 2*i + 1]], HP[EL[Eo + 2*i]][EL[Eo + 2*i + 1] + 1], HP[EL[Eo + 2*i]][EL[Eo + 2*i + 1] + 2]))
 
 //@ func BatchToBytesUncompressed
-//@ props C07
+//@ props C07 C19
 //@ prelude field curve bytesint batchspec
 //@ let HP = heapFp()
 //@ let EL = row(elements)
